@@ -258,7 +258,7 @@ pub fn c04(tier: Tier) -> i32 {
         diverse: &diverse,
         tier: tier.clone(),
     };
-    let maxlen = if tier.is_thorough() { 4 } else { 3 };
+    let maxlen = if tier.is_thorough() { 5 } else { 3 };
     let out = run_nat(f_c04, cap(&tier), &|sink| {
         s8_stack_single(&plan, sink);
         s8b_programs(&plan, maxlen, sink);
